@@ -306,7 +306,7 @@ class Executor:
                 raise PathEnd()   # partial correctness: an exceptional exit establishes nothing
             for item in posts:
                 cl = clause(item)
-                self.oblige("post_raise#" + cl.name, cl.expr, raised.node, "post", keep=cl.keep, uses=cl.uses)
+                self.oblige("post_raise#" + cl.name, cl.expr, raised.node, "post", keep=cl.keep, uses=cl.uses, prop=cl.prop)
             return
         for item in c.post(S, old, entry, result):
             cl = clause(item)
